@@ -289,6 +289,10 @@ func (g *gen) writeFuncImpl(b *buffer, n *a.Func) error {
 func (g *gen) gatherFuncImpl(_ *buffer, n *a.Func) error {
 	coroID := uint32(0)
 	if n.Public() && n.Effect().Coroutine() {
+		if n.Receiver().IsZero() {
+			// The active_coroutine bookkeeping lives in the receiver struct.
+			return fmt.Errorf("TODO: public coroutine %q without a receiver", n.QQID().Str(g.tm))
+		}
 		g.numPublicCoroutines[n.Receiver()]++
 		coroID = g.numPublicCoroutines[n.Receiver()]
 		if coroID >= 0x8000 {
